@@ -41,6 +41,28 @@ type C15Case struct {
 
 type c15Shared struct{ V int64 }
 
+// c15Needs lists the injected data names the rule set refers to (besides the stop tag).
+func c15Needs(rs []C15Rule) []string {
+	need := map[string]bool{}
+	for _, r := range rs {
+		switch r.Kind {
+		case "cond":
+			need["flags"] = true
+		case "sharedw", "sharedr":
+			need["shared"] = true
+		case "rangeinj", "seeinj":
+			need["sk"] = true
+		}
+	}
+	var out []string
+	for _, n := range []string{"flags", "shared", "sk"} {
+		if need[n] {
+			out = append(out, n)
+		}
+	}
+	return out
+}
+
 func (r C15Rule) text() string {
 	var b strings.Builder
 	fmt.Fprintf(&b, "rule %q %q salience %d\nbegin\n  S(@name)\n", r.Name, "d", r.Sal)
@@ -61,6 +83,12 @@ func (r C15Rule) text() string {
 	case "ranger":
 		// the only local of this rule is the key variable of a forRange
 		fmt.Fprintf(&b, "  forRange %s := three {\n    touch(@name, %s)\n  }\n  E(@name)\n", x, x)
+	case "rangeinj":
+		// the key variable of the forRange is an injected (pointer) name: it is shared with the
+		// other rules of the call and with the host
+		fmt.Fprintf(&b, "  forRange sk := three {\n    touchk(@name, sk)\n  }\n  seek(@name, sk)\n  E(@name)\n")
+	case "seeinj":
+		fmt.Fprintf(&b, "  seek(@name, sk)\n  E(@name)\n")
 	case "sharedw":
 		fmt.Fprintf(&b, "  %s = uniq(@name)\n  shared.V = %s\n  wrote(@name, %s)\n  E(@name)\n", x, x, x)
 	case "sharedr":
@@ -78,7 +106,7 @@ func init() {
 		Gen: func(t *rapid.T) interface{} {
 			c := &C15Case{QuiesMs: 2}
 			n := uni(t, "nrules", 2, 7)
-			kinds := []string{"writer", "writer", "writer", "reader", "reader", "reader", "cond", "cond", "sharedw", "sharedr", "wpanic", "wpanic", "werror", "ranger", "ranger"}
+			kinds := []string{"writer", "writer", "writer", "reader", "reader", "reader", "cond", "cond", "sharedw", "sharedr", "wpanic", "wpanic", "werror", "ranger", "ranger", "rangeinj", "seeinj"}
 			for i := 0; i < n; i++ {
 				c.Rules = append(c.Rules, C15Rule{Name: fmt.Sprintf("r%d", i), Sal: int64(uni(t, fmt.Sprintf("sal%d", i), -2, 4)),
 					Kind: kinds[uni(t, fmt.Sprintf("kind%d", i), 0, len(kinds)-1)], Local: []string{"x", "x", "y"}[uni(t, fmt.Sprintf("local%d", i), 0, 2)]})
@@ -101,6 +129,10 @@ func init() {
 			nc := uni(t, "ncalls", 2, 3)
 			for k := 0; k < nc; k++ {
 				method := ms[uni(t, fmt.Sprintf("method%d", k), 0, len(ms)-1)]
+				if method == "ExecuteRulesWithSpecifiedEM" && len(c15Needs(c.Rules)) > 2 {
+					// that method injects at most two values
+					method = "ExecuteRulesWithMultiInputWithSpecifiedEM"
+				}
 				call := c11GenCall(t, fmt.Sprintf("c%d_", k), method, mrules)
 				m, _ := gx.Lookup(method)
 				if m.Shape == gx.ShDAG && len(call.DAG) > 0 && pct(t, fmt.Sprintf("dagdup%d", k), 60) {
@@ -139,6 +171,21 @@ func checkC15(ci interface{}, x *Ctx) {
 	apis["see"] = func(n string, v int64) { env.log.Add("SEE", n, v) }
 	apis["touch"] = func(n string, v int64) { env.log.Add("TOUCH", n, v) }
 	apis["three"] = []int64{7, 8, 9}
+	// reading a pointer-injected scalar yields the pointer itself; the observers look through it
+	deref := func(v interface{}) int64 {
+		switch t := v.(type) {
+		case *int64:
+			return *t
+		case int64:
+			return t
+		case int:
+			return int64(t)
+		}
+		return -99
+	}
+	apis["seek"] = func(n string, v interface{}) { env.log.Add("SK", n, deref(v)) }
+	apis["touchk"] = func(n string, v interface{}) { env.log.Add("TOUCH", n, deref(v)) }
+	skv := make([]int64, 8) // the host variables behind the injected name sk (one per parallel request)
 	flags := &c11Flags{}
 	shared := &c15Shared{}
 	var text strings.Builder
@@ -147,7 +194,7 @@ func checkC15(ci interface{}, x *Ctx) {
 	for _, r := range c.Rules {
 		text.WriteString(r.text())
 		byName[r.Name] = r
-		if r.Kind != "sharedr" {
+		if r.Kind != "sharedr" && r.Kind != "rangeinj" && r.Kind != "seeinj" {
 			localUsers[r.Local]++
 		}
 	}
@@ -167,6 +214,7 @@ func checkC15(ci interface{}, x *Ctx) {
 		dc.Add("stag", env.tag)
 		dc.Add("flags", flags)
 		dc.Add("shared", shared)
+		dc.Add("sk", &skv[0])
 		rb := builder.NewRuleBuilder(dc)
 		if err := rb.BuildRuleFromString(text.String()); err != nil {
 			x.Violation("compile", "generated text rejected: %v\n%s", err, text.String())
@@ -188,6 +236,9 @@ func checkC15(ci interface{}, x *Ctx) {
 			env.gates.Set(n, m, 3)
 		}
 		env.tag.StopTag = false
+		for i := range skv {
+			skv[i] = -5
+		}
 		par := 1
 		if tg.pool != nil && c.Parallel > 1 {
 			par = c.Parallel
@@ -204,7 +255,12 @@ func checkC15(ci interface{}, x *Ctx) {
 			go func(p int) {
 				defer wg.Done()
 				if tg.pool != nil {
-					results[p] = gx.OnPool(tg.pool, cc.Call, map[string]interface{}{"stag": env.tag, "flags": flags, "shared": shared}, env.tag)
+					all := map[string]interface{}{"flags": flags, "shared": shared, "sk": &skv[p]}
+					data := map[string]interface{}{"stag": env.tag}
+					for _, n := range c15Needs(c.Rules) {
+						data[n] = all[n]
+					}
+					results[p] = gx.OnPool(tg.pool, cc.Call, data, env.tag)
 				} else {
 					results[p] = gx.OnEngine(tg.g, tg.rb, cc.Call, env.tag)
 				}
@@ -286,6 +342,30 @@ func checkC15(ci interface{}, x *Ctx) {
 			in := models.Input{Rules: mrules, Call: cc.Call, EM: c.EM, Trace: trace, Err: results[0].Err != nil, Result: results[0].Map, SkipResult: true}
 			for _, v := range models.Validate(in) {
 				x.Violation("model:"+v.Kind+"/"+shape, "call %d %s (flag=%v): %s\ntrace %v", ci2, cc.Call, cc.Flag, v.Msg, trace)
+			}
+			// an injected name used as forRange key is written through: the host sees the last key
+			rangeDone := false
+			for _, e := range trace {
+				if e.Kind == "E" && byName[e.Name].Kind == "rangeinj" {
+					rangeDone = true
+				}
+			}
+			if rangeDone {
+				x.Class("forrange-key-is-an-injected-name")
+				if skv[0] != 2 {
+					x.Violation("injected-key-not-written-through/"+shape, "call %d %s: a rule ran 'forRange sk := three' to its end, sk is an injected pointer, but the host's variable holds %d afterwards (want the last key, 2)\ntrace %v", ci2, cc.Call, skv[0], trace)
+				}
+			}
+			if shape == gx.ShSort {
+				done := false
+				for _, e := range trace {
+					switch {
+					case e.Kind == "E" && byName[e.Name].Kind == "rangeinj":
+						done = true
+					case e.Kind == "SK" && (done || byName[e.Name].Kind == "rangeinj") && e.Arg != 2:
+						x.Violation("injected-key-not-shared/"+shape, "call %d %s: rule %q read the injected name sk = %d after a forRange over it (in this or an earlier rule of the call) ended with key 2\ntrace %v", ci2, cc.Call, e.Name, e.Arg, trace)
+					}
+				}
 			}
 			// injected names are shared by all rules of the call (sorted models: order known)
 			if shape == gx.ShSort && !m.AsGiven {
